@@ -35,7 +35,7 @@ def f32_exact(case):
 
 def pick_carriers(case, rng):
     fn = case["fn"]
-    carrier = rng.choice(SAFE_CARRIERS + (["nd_f4"] * 2 if fn in ("gross", "valid", "climatology") and f32_exact(case) else []))
+    carrier = rng.choice(SAFE_CARRIERS + (["nd_f4"] * 2 if fn in ("gross", "valid", "climatology", "roc", "spike", "density") and f32_exact(case) else []))
     if fn == "valid":
         carrier = "nd_f8"            # valid_range_test takes numpy arrays (Series: see C15)
         if not case.get("as_time") and case["inp"] and all(v is not None and F(v).denominator == 1 for v in case["inp"]) \
